@@ -100,6 +100,12 @@ impl KBucket {
         KBucketEntry::NoSlot
     }
 
+    /// All nodes of the bucket in storage order (verification adapter only).
+    #[cfg(litep2p_verif)]
+    pub(crate) fn verif_nodes(&self) -> &[KademliaPeer] {
+        &self.nodes
+    }
+
     /// Get iterator over the k-bucket, sorting the k-bucket entries in increasing order
     /// by distance.
     pub fn closest_iter<K: Clone>(&self, target: &Key<K>) -> impl Iterator<Item = &KademliaPeer> {
